@@ -84,7 +84,8 @@ def broadcast(self, other):
     # Then repeat along axes
     #for newaxis in newaxes:  
     for newaxis in reversed(newaxes):  # should be faster ( CHECK ) 
-        if newobj.axes[newaxis.name].size == 1 and newaxis.size != 1:
+        # (a dimension the array did not have takes the target's labels even if the target has a single one)
+        if newobj.axes[newaxis.name].size == 1 and (newaxis.size != 1 or newaxis.name not in self.dims):
             newobj = newobj.repeat(newaxis.values, axis=newaxis.name)
 
     return newobj
